@@ -218,6 +218,7 @@ func NewProvider(cfg ProviderCfg) (*Provider, error) {
 	for _, v := range p.Vals {
 		addAcct(v.Oper)
 	}
+	addAcct(Relayer)
 	gen[authtypes.ModuleName] = cdc.MustMarshalJSON(authtypes.NewGenesisState(authtypes.DefaultParams(), accounts))
 
 	// staking: validators are listed unbonded with their delegations, so that staking's own
